@@ -310,6 +310,7 @@ type Parent struct {
 	notes    []string
 	scratch  string
 	verifDir string
+	hangs    int // cases reported as non-terminating so far
 }
 
 func (p *Parent) absorb(m *msg) {
@@ -360,6 +361,16 @@ func (p *Parent) runShard(exe string, shard, nshards int, wg *sync.WaitGroup) {
 	restarts := 0
 	n := p.Prop.N(p.Tier)
 	for from < n {
+		p.mu.Lock()
+		tooManyHangs := p.hangs >= 4
+		p.mu.Unlock()
+		if tooManyHangs {
+			// every hang costs a full CPU bound; a few witnesses are enough
+			p.mu.Lock()
+			p.notes = append(p.notes, fmt.Sprintf("shard %d: stopped after several non-terminating cases; remaining cases of this shard not run", shard))
+			p.mu.Unlock()
+			return
+		}
 		args := []string{"-worker", "-prop", p.Prop.ID, "-tier", p.Tier, "-seed", strconv.FormatUint(p.Seed, 10),
 			"-shard", strconv.Itoa(shard), "-nshards", strconv.Itoa(nshards), "-from", strconv.Itoa(from), "-scratch", p.scratch}
 		cmd := exec.Command(exe, args...)
@@ -419,6 +430,9 @@ func (p *Parent) runShard(exe string, shard, nshards int, wg *sync.WaitGroup) {
 					} else {
 						if m.T == "hang" {
 							hang = true
+							p.mu.Lock()
+							p.hangs++
+							p.mu.Unlock()
 						}
 						p.absorb(&m)
 					}
@@ -462,7 +476,7 @@ func (p *Parent) runShard(exe string, shard, nshards int, wg *sync.WaitGroup) {
 		}
 		from = idx + 1
 		restarts++
-		if restarts > 30 {
+		if restarts > 12 {
 			p.mu.Lock()
 			p.notes = append(p.notes, fmt.Sprintf("shard %d: too many worker deaths, remaining cases not run", shard))
 			p.inconcl++
